@@ -189,6 +189,22 @@ C17_Semantics(def, log, out) ==
 C17_FilterSound(log, out) ==
     (out.valid /\ out.match = "true") => (out.fok /\ Passes(out.filt[1], log))
 
+(*---------------- TriggerProcessor.FetchEvents (triggerprocessor.go) ----------------------*)
+(* Several definitions are active together and the node holds several logs (all inside the
+   requested block range, none after an expiration).  out = [err, fired, pm]:
+     fired[i][j]  FetchEvents returned a TriggerEvent for definition i and log j
+     pm[i][j]     what the real Match(definition i, log j) answers when called directly
+   "never hidden by the filter", lifted to the multi-trigger call: every log that matches a
+   definition (by the document where it decides, and by the real Match) is returned for that
+   definition; and nothing is returned that does not match.                                  *)
+C17_FetchNotHidden(defs, logs, out) ==
+    /\ out.err = ""
+    /\ \A i \in DOMAIN defs : \A j \in DOMAIN logs :
+          (out.pm[i][j] = "true" \/ (DocShapeOK(defs[i]) /\ DocDecided(defs[i], logs[j]) = "T")) => out.fired[i][j]
+C17_FetchOnlyMatching(defs, logs, out) ==
+    \A i \in DOMAIN defs : \A j \in DOMAIN logs :
+        out.fired[i][j] => (out.pm[i][j] = "true" /\ (DocShapeOK(defs[i]) => DocDecided(defs[i], logs[j]) # "F"))
+
 ----------------------------------------------------------------------------
 (* CODE-SHAPED LAYER: eventtrigger.go                                       *)
 
@@ -290,6 +306,17 @@ CMatchFrom(def, log, i) ==
     ELSE LET r == CPredMatch(def.preds[i], log) IN
          IF r = "true" THEN CMatchFrom(def, log, i + 1) ELSE r
 CMatch(def, log) == IF log.addr # def.contract THEN "false" ELSE CMatchFrom(def, log, 1)
+
+(* TriggerProcessor.FetchEvents for active triggers whose stored definitions are defs, against a node
+   holding logs (in range, not expired): per trigger UnmarshalBytes (invalid: skipped), ToFilterQuery
+   (error: skipped), eth_getLogs with that filter (the node applies Passes), then Match on every
+   returned log.                                                                                   *)
+CFetchFired(defs, logs) ==
+    [i \in DOMAIN defs |-> [j \in DOMAIN logs |->
+        LET d == defs[i] IN
+        /\ CValid(d)
+        /\ LET f == CToFilterQuery(d) IN
+           f.ok /\ Passes(f.filt[1], logs[j]) /\ CMatch(d, logs[j]) = "true"]]
 
 ----------------------------------------------------------------------------
 (* RLP (go-ethereum rlp) as used by MarshalBytes / UnmarshalBytes           *)
